@@ -58,10 +58,38 @@
 /* Reference model: the prefix codec, written from the property statement    */
 /* ------------------------------------------------------------------------ */
 
-enum { K_VAR, K_OCT, K_LE16, K_LE32, K_BE16, K_BE32, NKINDS };
-static const char *const kname[NKINDS] = { "varint", "octet", "le16", "le32", "be16", "be32" };
+/* K_VARW is not a seventh encoding: it is the varint kind reached through the
+ * header's compatibility entry points lenp_*() (include/ufw/length-prefix.h)
+ * instead of flenp_*(LENP_VARIABLE, ...).  Treating it as a kind drives every
+ * public entry point of the header through every family and the same oracle. */
+enum { K_VAR, K_OCT, K_LE16, K_LE32, K_BE16, K_BE32, K_VARW, NKINDS };
+#define NFLENP K_VARW /* kinds of the flenp_* functions proper */
+static const char *const kname[NKINDS] = { "varint", "octet", "le16", "le32", "be16", "be32", "varint-via-lenp-wrappers" };
 static const LengthPrefixKind klib[NKINDS] = { LENP_VARIABLE, LENP_OCTET, LENP_LE_16BIT,
-                                                LENP_LE_32BIT, LENP_BE_16BIT, LENP_BE_32BIT };
+                                                LENP_LE_32BIT, LENP_BE_16BIT, LENP_BE_32BIT, LENP_VARIABLE };
+
+/* Every call of the library goes through these: flenp_* with the kind, or the
+ * lenp_* entry point of the same name (written as a call, so that it may be
+ * an inline function or a macro).  The result is converted from whatever type
+ * the entry point returns, as a caller's `ssize_t rc = lenp_...()` would. */
+#define X_ENTRY(ret, name, params, flenp_args, lenp_args)                       \
+    static ret X_##name params                                                  \
+    {                                                                           \
+        if (k == K_VARW)                                                        \
+            return lenp_##name lenp_args;                                       \
+        return flenp_##name flenp_args;                                         \
+    }
+X_ENTRY(int, memory_encode, (int k, LengthPrefixBuffer *l, void *m, size_t n), (klib[k], l, m, n), (l, m, n))
+X_ENTRY(int, buffer_encode, (int k, LengthPrefixBuffer *l, ByteBuffer *b), (klib[k], l, b), (l, b))
+X_ENTRY(int, buffer_encode_n, (int k, LengthPrefixBuffer *l, ByteBuffer *b, size_t n), (klib[k], l, b, n), (l, b, n))
+X_ENTRY(int, chunks_use, (int k, LengthPrefixChunks *c), (klib[k], c), (c))
+X_ENTRY(ssize_t, memory_to_sink, (int k, Sink *s, void *m, size_t n), (klib[k], s, m, n), (s, m, n))
+X_ENTRY(ssize_t, buffer_to_sink, (int k, Sink *s, ByteBuffer *b), (klib[k], s, b), (s, b))
+X_ENTRY(ssize_t, buffer_to_sink_n, (int k, Sink *s, ByteBuffer *b, size_t n), (klib[k], s, b, n), (s, b, n))
+X_ENTRY(ssize_t, chunks_to_sink, (int k, Sink *s, ByteChunks *c), (klib[k], s, c), (s, c))
+X_ENTRY(ssize_t, memory_from_source, (int k, Source *s, void *m, size_t n), (klib[k], s, m, n), (s, m, n))
+X_ENTRY(ssize_t, buffer_from_source, (int k, Source *s, ByteBuffer *b), (klib[k], s, b), (s, b))
+X_ENTRY(ssize_t, decode_source_to_sink, (int k, Source *s, Sink *t), (klib[k], s, t), (s, t))
 
 #define SSZ_MAX ((uint64_t)INT64_MAX)
 
@@ -126,7 +154,7 @@ ref_verdict(int k, uint64_t n, bool to_sink)
 {
     if (n > ref_max(k))
         return V_REFUSE;
-    if (k != K_VAR)
+    if (k != K_VAR && k != K_VARW)
         return V_ACCEPT;
     if (n <= SSZ_MAX - 10u)
         return V_ACCEPT;
@@ -320,7 +348,7 @@ bs_octet(void *drv, unsigned char c)
 
 /* segment sink for the maxima: payload pointers are recognised by the real
  * block they point into and only the octets that really exist are read */
-#define SEG_BLOCKS 4
+#define SEG_BLOCKS 4 /* run_sum uses up to all of them as chunks */
 #define SEG_MAX 8
 #define SEG_BUDGET 256
 struct seg {
@@ -638,11 +666,11 @@ run_flat(int k, enum ep ep, int sk, size_t size, size_t used, size_t off, size_t
         memset(lpb, 0, sizeof *lpb);
         int rc;
         if (ep == EP_MEM_ENC)
-            rc = flenp_memory_encode(klib[k], lpb, mem + off, n);
+            rc = X_memory_encode(k, lpb, mem + off, n);
         else if (ep == EP_BUF_ENC)
-            rc = flenp_buffer_encode(klib[k], lpb, &b);
+            rc = X_buffer_encode(k, lpb, &b);
         else
-            rc = flenp_buffer_encode_n(klib[k], lpb, &b, n);
+            rc = X_buffer_encode_n(k, lpb, &b, n);
         acc = judge_obj(name, k, want, pay, lpb->prefix_, &lpb->prefix, &lpb->payload, rc);
         free(lpb);
     } else {
@@ -652,11 +680,11 @@ run_flat(int k, enum ep ep, int sk, size_t size, size_t used, size_t off, size_t
         rec_sink(&s, &r, sk);
         ssize_t rc;
         if (ep == EP_MEM_SINK)
-            rc = flenp_memory_to_sink(klib[k], &s, mem + off, n);
+            rc = X_memory_to_sink(k, &s, mem + off, n);
         else if (ep == EP_BUF_SINK)
-            rc = flenp_buffer_to_sink(klib[k], &s, &b);
+            rc = X_buffer_to_sink(k, &s, &b);
         else
-            rc = flenp_buffer_to_sink_n(klib[k], &s, &b, n);
+            rc = X_buffer_to_sink_n(k, &s, &b, n);
         acc = judge_sink(name, k, want, pay, &r, rc);
         free(r.buf);
     }
@@ -764,7 +792,7 @@ run_refuse_n(int k, enum ep ep, size_t size, size_t used, size_t off, uint64_t n
         if (!sinky) {
             LengthPrefixBuffer *lpb = mc_exact(sizeof *lpb);
             memset(lpb, 0, sizeof *lpb);
-            rc = flenp_buffer_encode_n(klib[k], lpb, &b, (size_t)want);
+            rc = X_buffer_encode_n(k, lpb, &b, (size_t)want);
             if (round == 0 && rc >= 0) {
                 atmost = true;
                 frame = obj_is_frame(k, rest, mem + o, lpb);
@@ -777,7 +805,7 @@ run_refuse_n(int k, enum ep ep, size_t size, size_t used, size_t off, uint64_t n
             rec_init(&r, round ? (size_t)want + 10u : rest + 16u);
             Sink s;
             rec_sink(&s, &r, 0);
-            rc = flenp_buffer_to_sink_n(klib[k], &s, &b, (size_t)want);
+            rc = X_buffer_to_sink_n(k, &s, &b, (size_t)want);
             if (round == 0 && rc >= 0) {
                 atmost = true;
                 frame = sink_is_frame(k, rest, mem + o, &r, rc);
@@ -891,13 +919,13 @@ run_sinkbeh(int k, enum ep ep, int sk, size_t len, const uint8_t *script, int sl
     ssize_t rc;
     mc_trans(1);
     if (ep == EP_MEM_SINK) {
-        rc = flenp_memory_to_sink(klib[k], &s, mem + 1, len);
+        rc = X_memory_to_sink(k, &s, mem + 1, len);
     } else if (ep == EP_BUF_SINK) {
         ByteBuffer b = { mem, len + 2u, len + 1u, 1 };
-        rc = flenp_buffer_to_sink(klib[k], &s, &b);
+        rc = X_buffer_to_sink(k, &s, &b);
     } else if (ep == EP_BUF_SINK_N) {
         ByteBuffer b = { mem, len + 4u, len + 3u, 1 };
-        rc = flenp_buffer_to_sink_n(klib[k], &s, &b, len);
+        rc = X_buffer_to_sink_n(k, &s, &b, len);
         if (rc >= 0 && !bs.over)
             check_advance(name, &b, mem, len + 4u, len + 3u, 1, len);
     } else {
@@ -907,7 +935,7 @@ run_sinkbeh(int k, enum ep ep, int sk, size_t len, const uint8_t *script, int sl
         memcpy(joined, mem + 1, h1);
         memcpy(joined + h1, c3, h2);
         pay = joined;
-        rc = flenp_chunks_to_sink(klib[k], &s, &bc);
+        rc = X_chunks_to_sink(k, &s, &bc);
     }
     mc_log("sink: %ld calls, answered 0 %d times, EINTR/EAGAIN %d times, took part of a request %d times", bs.r.calls,
            bs.zeros, bs.intrs, bs.partials);
@@ -1028,7 +1056,7 @@ run_chunks(int k, enum ep ep, int sk, const struct chunkspec *c)
         LengthPrefixChunks *lpc = mc_exact(sizeof *lpc);
         memset(lpc, 0, sizeof *lpc);
         lpc->payload = (ByteChunks){ c->nch, c->active, arr };
-        const int rc = flenp_chunks_use(klib[k], lpc);
+        const int rc = X_chunks_use(k, lpc);
         const bool acc = judge_obj(epname[ep], k, total, NULL, lpc->prefix_, &lpc->prefix, NULL, rc);
         if (acc) {
             /* The object has to designate exactly the octets it was given: the
@@ -1067,7 +1095,7 @@ run_chunks(int k, enum ep ep, int sk, const struct chunkspec *c)
         Sink s;
         rec_sink(&s, &r, sk);
         ByteChunks bc = { c->nch, c->active, arr };
-        const ssize_t rc = flenp_chunks_to_sink(klib[k], &s, &bc);
+        const ssize_t rc = X_chunks_to_sink(k, &s, &bc);
         judge_sink(epname[ep], k, total, expect, &r, rc);
         free(r.buf);
     }
@@ -1289,11 +1317,11 @@ run_max(int k, enum ep ep, uint64_t n, int variant, uint64_t first_answer)
         memset(lpb, 0, sizeof *lpb);
         int rc;
         if (ep == EP_MEM_ENC)
-            rc = flenp_memory_encode(klib[k], lpb, blk[0] + off, n);
+            rc = X_memory_encode(k, lpb, blk[0] + off, n);
         else if (ep == EP_BUF_ENC)
-            rc = flenp_buffer_encode(klib[k], lpb, &b);
+            rc = X_buffer_encode(k, lpb, &b);
         else
-            rc = flenp_buffer_encode_n(klib[k], lpb, &b, n);
+            rc = X_buffer_encode_n(k, lpb, &b, n);
         if (judge_obj(name, k, n, blk[0] + off, lpb->prefix_, &lpb->prefix, &lpb->payload, rc)) {
             if (isn)
                 check_advance(name, &b, blk[0], size, used, off, n);
@@ -1306,11 +1334,11 @@ run_max(int k, enum ep ep, uint64_t n, int variant, uint64_t first_answer)
     case EP_MEM_SINK: case EP_BUF_SINK: case EP_BUF_SINK_N: {
         ssize_t rc;
         if (ep == EP_MEM_SINK)
-            rc = flenp_memory_to_sink(klib[k], &s, blk[0] + off, n);
+            rc = X_memory_to_sink(k, &s, blk[0] + off, n);
         else if (ep == EP_BUF_SINK)
-            rc = flenp_buffer_to_sink(klib[k], &s, &b);
+            rc = X_buffer_to_sink(k, &s, &b);
         else
-            rc = flenp_buffer_to_sink_n(klib[k], &s, &b, n);
+            rc = X_buffer_to_sink_n(k, &s, &b, n);
         judge_seg(name, k, n, xs, 1, &g, rc);
         if (isn && rc >= 0 && ref_verdict(k, n, true) != V_REFUSE)
             check_advance(name, &b, blk[0], size, used, off, n);
@@ -1333,12 +1361,12 @@ run_max(int k, enum ep ep, uint64_t n, int variant, uint64_t first_answer)
             LengthPrefixChunks *lpc = mc_exact(sizeof *lpc);
             memset(lpc, 0, sizeof *lpc);
             lpc->payload = (ByteChunks){ nch, 1, arr };
-            const int rc = flenp_chunks_use(klib[k], lpc);
+            const int rc = X_chunks_use(k, lpc);
             judge_obj(name, k, n, NULL, lpc->prefix_, &lpc->prefix, NULL, rc);
             free(lpc);
         } else {
             ByteChunks bc = { nch, 1, arr };
-            const ssize_t rc = flenp_chunks_to_sink(klib[k], &s, &bc);
+            const ssize_t rc = X_chunks_to_sink(k, &s, &bc);
             judge_seg(name, k, n, xs, 2, &g, rc);
         }
         break;
@@ -1438,7 +1466,7 @@ run_dec(int k, enum dec d, size_t len, size_t cap, size_t bused, size_t boff, en
     if (d == D_MEM) {
         unsigned char *dst = mc_exact(cap);
         memset(dst, 0xee, cap);
-        const ssize_t rc = flenp_memory_from_source(klib[k], &src, dst, cap);
+        const ssize_t rc = X_memory_from_source(k, &src, dst, cap);
         mc_log("%s rc=%zd source consumed=%zu of %zu", name, rc, drv.pos, sl);
         mc_log_hex("destination-head", dst, cap < 24 ? cap : 24);
         if (room) {
@@ -1456,7 +1484,7 @@ run_dec(int k, enum dec d, size_t len, size_t cap, size_t bused, size_t boff, en
         for (size_t i = 0; i < size; ++i)
             mem[i] = old(i);
         ByteBuffer b = { mem, size, bused, boff };
-        const ssize_t rc = flenp_buffer_from_source(klib[k], &src, &b);
+        const ssize_t rc = X_buffer_from_source(k, &src, &b);
         mc_log("%s rc=%zd buffer after: used=%zu offset=%zu", name, rc, b.used, b.offset);
         mc_log_hex("buffer-head", mem, size < 24 ? size : 24);
         if (room) {
@@ -1480,7 +1508,7 @@ run_dec(int k, enum dec d, size_t len, size_t cap, size_t bused, size_t boff, en
         cap_init(&r, cap);
         Sink s;
         chunk_sink_init(&s, cap_chunk, &r);
-        const ssize_t rc = flenp_decode_source_to_sink(klib[k], &src, &s);
+        const ssize_t rc = X_decode_source_to_sink(k, &src, &s);
         mc_log("%s rc=%zd sink holds %zu of capacity %zu, source consumed=%zu of %zu", name, rc, r.n, cap, drv.pos, sl);
         if (room) {
             if (rc < 0 || r.n != len || !payload_is(r.buf, len, 0))
@@ -1575,10 +1603,10 @@ dec_max(void)
                     ssize_t rc;
                     mc_trans(1);
                     if (d == D_MEM) {
-                        rc = flenp_memory_from_source(klib[k], &src, dst, cap);
+                        rc = X_memory_from_source(k, &src, dst, cap);
                     } else {
                         ByteBuffer b = { dst, used + cap, used, 1 };
-                        rc = flenp_buffer_from_source(klib[k], &src, &b);
+                        rc = X_buffer_from_source(k, &src, &b);
                     }
                     mc_log("%s rc=%zd source consumed=%zu", decname[d], rc, drv.pos);
                     if (rc != -ENOMEM)
@@ -1732,11 +1760,11 @@ dec_huge_probe(void)
         chunk_source_init(&src, hsrc_chunk, &h);
         if (d == D_MEM) {
             h.dst = (uintptr_t)m;
-            (void)flenp_memory_from_source(klib[K_VAR], &src, m, (size_t)size);
+            (void)X_memory_from_source(K_VAR, &src, m, (size_t)size);
         } else {
             ByteBuffer b = { m, (size_t)size, 3, 1 };
             h.dst = (uintptr_t)m + 3u;
-            (void)flenp_buffer_from_source(klib[K_VAR], &src, &b);
+            (void)X_buffer_from_source(K_VAR, &src, &b);
         }
         const size_t resident = resident_pages(m, size);
         munmap(m, size);
@@ -1751,11 +1779,11 @@ static void
 dec_huge(void)
 {
     const bool runnable = dec_huge_probe();
-    static const int ks[3] = { K_VAR, K_LE32, K_BE32 };
+    static const int ks[4] = { K_VAR, K_LE32, K_BE32, K_VARW };
     static const uint64_t LS[] = { (1ull << 32) - 3, (1ull << 32) - 1, (1ull << 32) + 5, (1ull << 33) - EINTR + 1 };
     static const uint64_t FIRST[] = { 1, 1ull << 31, (1ull << 32) - EAGAIN, (1ull << 32) - EINTR, (1ull << 32) - EIO,
                                       1ull << 32, (1ull << 33) - EINTR };
-    for (int ki = 0; ki < 3; ++ki)
+    for (int ki = 0; ki < 4; ++ki)
         for (size_t li = 0; li < sizeof LS / sizeof *LS; ++li)
             for (size_t fi = 0; fi < sizeof FIRST / sizeof *FIRST; ++fi)
                 for (int d = 0; d < 2; ++d)
@@ -1788,11 +1816,11 @@ dec_huge(void)
                         mc_trans(1);
                         if (d == D_MEM) {
                             h.dst = (uintptr_t)ARENA;
-                            rc = flenp_memory_from_source(klib[k], &src, ARENA, (size_t)(len + slack));
+                            rc = X_memory_from_source(k, &src, ARENA, (size_t)(len + slack));
                         } else {
                             ByteBuffer b = { ARENA, (size_t)(3u + len + slack), 3, 1 };
                             h.dst = (uintptr_t)ARENA + 3u;
-                            rc = flenp_buffer_from_source(klib[k], &src, &b);
+                            rc = X_buffer_from_source(k, &src, &b);
                             mc_log("buffer after: used=%zu offset=%zu", b.used, b.offset);
                             state_ok = b.data == ARENA && b.size == 3u + len + slack && b.used == 3u + len && b.offset == 1;
                         }
@@ -1828,6 +1856,155 @@ dec_huge(void)
                                     (unsigned long long)len);
                         mc_end(strcmp(outcome, "dechuge-accept") == 0, outcome);
                     }
+}
+
+/* ---- accepting decodes of the sink decoder at the 32-bit maxima ----------- */
+
+/* decode_source_to_sink moves octet by octet unless an endpoint offers a
+ * buffer (the getbuffer extension of endpoints.h).  Here the source offers the
+ * untouched mapping as its scratch block: a payload read then names the
+ * scratch block and is answered with a count only, the sink is handed the
+ * scratch block and that count and counts.  Octets are identified by address
+ * and count; nothing is dereferenced.  A decoder that does not use the offered
+ * block (asks the source to fill other memory) cannot be followed: the family
+ * is then not run / the case not judged (a cap), never a violation. */
+struct hs2 {
+    unsigned char pfx[10];
+    size_t npfx, ppos;
+    uint64_t len, moved, first, last, sunk;
+    bool first_done, gave_up, foreign, sink_bad;
+    long calls, sink_calls;
+};
+
+static ByteBuffer
+hs2_getbuffer(Source *source)
+{
+    (void)source;
+    ByteBuffer b;
+    b.data = ARENA;
+    b.size = b.used = (size_t)1 << 33;
+    b.offset = 0;
+    return b;
+}
+
+static ssize_t
+hs2_get(void *drv, void *data, size_t n)
+{
+    struct hs2 *h = drv;
+    if (++h->calls > SEG_BUDGET) {
+        h->gave_up = true;
+        return -EIO;
+    }
+    if (h->ppos < h->npfx) {
+        size_t m = h->npfx - h->ppos;
+        if (m > n)
+            m = n;
+        memcpy(data, h->pfx + h->ppos, m);
+        h->ppos += m;
+        return (ssize_t)m;
+    }
+    if (h->moved >= h->len)
+        return -ENODATA;
+    if ((unsigned char *)data != ARENA) {
+        h->foreign = true;
+        return -EIO;
+    }
+    uint64_t t = h->len - h->moved;
+    if (t > n)
+        t = n;
+    if (!h->first_done) {
+        h->first_done = true;
+        if (t > h->first)
+            t = h->first;
+    }
+    h->moved += t;
+    h->last = t;
+    mc_log("source call %ld: asked for %zu octets into its scratch block -> %llu", h->calls, n, (unsigned long long)t);
+    return (ssize_t)t;
+}
+
+static ssize_t
+hs2_put(void *drv, const void *data, size_t n)
+{
+    struct hs2 *h = drv;
+    if (++h->sink_calls > SEG_BUDGET) {
+        h->gave_up = true;
+        return -EIO;
+    }
+    if ((const unsigned char *)data != ARENA || n != h->last) {
+        if (!h->sink_bad)
+            mc_log("sink call %ld: handed %zu octets %s the scratch block, the source had just delivered %llu", h->sink_calls, n,
+                   (const unsigned char *)data == ARENA ? "at the start of" : "not at the start of", (unsigned long long)h->last);
+        h->sink_bad = true;
+    }
+    h->sunk += n;
+    h->last = 0;
+    return (ssize_t)n;
+}
+
+static ssize_t
+run_hs2(int k, struct hs2 *h, uint64_t len, uint64_t first)
+{
+    memset(h, 0, sizeof *h);
+    h->npfx = ref_prefix(k, len, h->pfx);
+    h->len = len;
+    h->first = first;
+    Source src;
+    chunk_source_init(&src, hs2_get, h);
+    src.ext.getbuffer = hs2_getbuffer;
+    Sink snk;
+    chunk_sink_init(&snk, hs2_put, h);
+    mc_trans(1);
+    return X_decode_source_to_sink(k, &src, &snk);
+}
+
+static void
+dec_huge_sink(void)
+{
+    struct hs2 h;
+    /* probe: does the decoder move a 64 MiB frame through the offered block? */
+    (void)run_hs2(K_VAR, &h, (uint64_t)64 << 20, (uint64_t)64 << 20);
+    const bool runnable = !h.foreign && !h.gave_up;
+    if (!runnable)
+        mc_cap("decode_source_to_sink does not move the payload through the block its source offers: dec-huge-sink cases not run");
+    static const int ks[4] = { K_VAR, K_LE32, K_BE32, K_VARW };
+    static const uint64_t LS[] = { 1ull << 31, (1ull << 31) + 7, (1ull << 32) - 3, (1ull << 32) - 1, (1ull << 32) + 5,
+                                   (1ull << 33) - EINTR + 1 };
+    static const uint64_t FIRST[] = { 1, 1ull << 31, (1ull << 32) - EAGAIN, (1ull << 32) - EINTR, (1ull << 32) - EIO,
+                                      1ull << 32, UINT64_MAX /* everything asked */ };
+    for (int ki = 0; ki < 4; ++ki)
+        for (size_t li = 0; li < sizeof LS / sizeof *LS; ++li)
+            for (size_t fi = 0; fi < sizeof FIRST / sizeof *FIRST; ++fi) {
+                const int k = ks[ki];
+                const uint64_t len = LS[li];
+                if (len > ref_max(k) || (FIRST[fi] != UINT64_MAX && FIRST[fi] >= len))
+                    continue;
+                if (!mc_case("dec-huge-sink k=%s dec=%s len=%llu source offers an untouched 8 GiB scratch block, first-read=%llu",
+                             kname[k], decname[D_SINK], (unsigned long long)len,
+                             (unsigned long long)(FIRST[fi] == UINT64_MAX ? len : FIRST[fi])))
+                    continue;
+                if (!runnable) {
+                    mc_end(false, "dechuge-not-run");
+                    continue;
+                }
+                const ssize_t rc = run_hs2(k, &h, len, FIRST[fi]);
+                mc_log("%s rc=%zd: %llu octets taken from the source in %ld calls, %llu handed to the sink in %ld calls", decname[D_SINK], rc,
+                       (unsigned long long)h.moved, h.calls, (unsigned long long)h.sunk, h.sink_calls);
+                const char *outcome = "dechuge-sink-accept";
+                if (h.foreign) {
+                    mc_log("not judged: the source was asked to fill memory other than the block it offers");
+                    mc_cap("decode_source_to_sink does not move the payload through the block its source offers: case not judged");
+                    outcome = "dechuge-not-judged";
+                } else if (h.gave_up && !h.sink_bad && h.sunk <= h.moved && h.moved <= len) {
+                    mc_log("not judged: %d driver calls moved a prefix of the payload only", SEG_BUDGET);
+                    outcome = "dechuge-not-judged";
+                } else if (rc < 0 || h.sink_bad || h.moved != len || h.sunk != len) {
+                    mc_fail(clause(decname[D_SINK], "returns-payload"), "frame of %llu octets: rc=%zd, %llu octets taken from the source, %llu handed to the sink%s",
+                            (unsigned long long)len, rc, (unsigned long long)h.moved, (unsigned long long)h.sunk,
+                            h.sink_bad ? ", not as the source delivered them" : "");
+                }
+                mc_end(strcmp(outcome, "dechuge-sink-accept") == 0, outcome);
+            }
 }
 
 /* ---- consecutive frames under fragmentation ------------------------------ */
@@ -1876,19 +2053,19 @@ run_stream(const struct shape *sh, enum dec d, const unsigned char *cut, enum sr
         if (d == D_MEM) {
             unsigned char *dst = mc_exact(len);
             memset(dst, 0xee, len);
-            rc = flenp_memory_from_source(klib[sh->k], &src, dst, len);
+            rc = X_memory_from_source(sh->k, &src, dst, len);
             mc_log_hex("destination", dst, len);
             good = rc >= 0 && (size_t)rc == len && payload_is(dst, len, f);
             free(dst);
         } else if (d == D_BUF) {
-            rc = flenp_buffer_from_source(klib[sh->k], &src, &b);
+            rc = X_buffer_from_source(sh->k, &src, &b);
             mc_log("buffer after: used=%zu offset=%zu", b.used, b.offset);
             mc_log_hex("buffer", mem, bused + sum);
             good = rc >= 0 && (size_t)rc == len && b.used == bused + cum + len && b.offset == boff
                 && b.data == mem && mem[0] == old(0) && mem[1] == old(1)
                 && payload_is(mem + bused + cum, len, f);
         } else {
-            rc = flenp_decode_source_to_sink(klib[sh->k], &src, &s);
+            rc = X_decode_source_to_sink(sh->k, &src, &s);
             mc_log_hex("sink", r.buf, r.n);
             good = rc >= 0 && r.n == cum + len && payload_is(r.buf + cum, len, f);
         }
@@ -2046,8 +2223,8 @@ streams_octet(size_t Lmax)
 static void
 stream_two_cuts(void)
 {
-    static const int ks[3] = { K_VAR, K_LE16, K_BE32 };
-    for (int ki = 0; ki < 3; ++ki) {
+    static const int ks[4] = { K_VAR, K_LE16, K_BE32, K_VARW };
+    for (int ki = 0; ki < 4; ++ki) {
         struct shape sh;
         memset(&sh, 0, sizeof sh);
         unsigned char tmp[10];
@@ -2073,6 +2250,998 @@ stream_two_cuts(void)
     }
 }
 
+/* ------------------------------------------------------------------------ */
+/* Totals that only the *sum* of a chunk list reaches                        */
+/* ------------------------------------------------------------------------ */
+
+/* 2..4 chunks of (nearly) equal size, none of them near a power-of-two
+ * boundary, whose unread octets add up to a total around 2^31 / 2^32: fake
+ * extents over 16 real octets each, segment sink. */
+static void
+run_sum(int k, enum ep ep, uint64_t total, int parts)
+{
+    unsigned char *blk[SEG_BLOCKS];
+    struct seg g;
+    memset(&g, 0, sizeof g);
+    g.nblk = SEG_BLOCKS;
+    for (int b = 0; b < SEG_BLOCKS; ++b) {
+        blk[b] = mc_exact(REALBLK);
+        for (size_t i = 0; i < REALBLK; ++i)
+            blk[b][i] = pat(40u * (size_t)b + i);
+        g.base[b] = blk[b];
+        g.real[b] = REALBLK;
+        g.patbase[b] = 40u * (size_t)b;
+    }
+    Sink s;
+    chunk_sink_init(&s, seg_chunk, &g);
+    ByteBuffer arr[SEG_BLOCKS];
+    struct xseg xs[SEG_BLOCKS];
+    uint64_t left = total;
+    for (int i = 0; i < parts; ++i) {
+        const uint64_t sz = i + 1 < parts ? total / (uint64_t)parts : left;
+        left -= sz;
+        arr[i] = (ByteBuffer){ blk[i], 1u + sz + 2u, 1u + sz, 1 };
+        xs[i] = (struct xseg){ i, 1, sz };
+    }
+    mc_trans(1);
+    if (ep == EP_CHUNKS_USE) {
+        LengthPrefixChunks *lpc = mc_exact(sizeof *lpc);
+        memset(lpc, 0, sizeof *lpc);
+        lpc->payload = (ByteChunks){ (size_t)parts, 0, arr };
+        const int rc = X_chunks_use(k, lpc);
+        judge_obj(epname[ep], k, total, NULL, lpc->prefix_, &lpc->prefix, NULL, rc);
+        free(lpc);
+    } else {
+        ByteChunks bc = { (size_t)parts, 0, arr };
+        const ssize_t rc = X_chunks_to_sink(k, &s, &bc);
+        judge_seg(epname[ep], k, total, xs, parts, &g, rc);
+    }
+    for (int i = 0; i < SEG_BLOCKS; ++i)
+        free(blk[i]);
+}
+
+static void
+enc_sum(void)
+{
+    static const uint64_t T[] = { (1ull << 31) - 1, 1ull << 31, (1ull << 31) + 5, 0x90000000ull, (1ull << 32) - 1,
+                                  1ull << 32, (1ull << 32) + 5, 0x180000000ull };
+    for (int k = 0; k < NKINDS; ++k)
+        for (size_t i = 0; i < sizeof T / sizeof *T; ++i)
+            for (int parts = 2; parts <= 4; ++parts)
+                for (int v = 0; v < 2; ++v) {
+                    const enum ep ep = v ? EP_CHUNKS_SINK : EP_CHUNKS_USE;
+                    if (!mc_case("enc-sum k=%s ep=%s total=%llu in %d chunks of equal size", kname[k], epname[ep],
+                                 (unsigned long long)T[i], parts))
+                        continue;
+                    run_sum(k, ep, T[i], parts);
+                    mc_end(true, ref_verdict(k, T[i], v != 0) == V_ACCEPT ? "encsum-accept" : "encsum-refuse");
+                }
+}
+
+/* ------------------------------------------------------------------------ */
+/* Aliasing between the arguments of one call                                */
+/* ------------------------------------------------------------------------ */
+
+/* The statement designates the payload by the arguments of the call (a
+ * pointer and a length; a buffer's unread content / first n unread octets
+ * when the call is made) and speaks of "a sink" / "a source" without
+ * restriction.  Admitted here, because the designated octets are not touched
+ * by anybody during the call:
+ *   - encoders into a sink that *appends to the very ByteBuffer* the payload
+ *     is taken from (a staging buffer: message in front, frames appended
+ *     behind the fill mark): memory_to_sink (memory = part of that buffer's
+ *     content), buffer_to_sink, buffer_to_sink_n (also as a history of slices
+ *     until the message is used up);
+ *   - decoders whose source *reads the unread content of the very ByteBuffer*
+ *     the payload is appended to (in-place de-framing), for all three
+ *     decoders (decode_source_to_sink: source and sink on one ByteBuffer).
+ * Sink and source are harness drivers that use the descriptor the obvious way
+ * (append at `used`, read at `offset`); they are environment, their
+ * bookkeeping in the descriptor has to survive the call like that of any
+ * other driver object.
+ * Not admitted (no sentence covers them; the repository's code does not
+ * survive them either, and could not without extra storage): a sink that
+ * appends to one of the chunks of the list being framed (the list's total is
+ * a moving target), a prefix object whose own payload view is the buffer
+ * argument, a decode destination that overlaps the unread stream. */
+struct bufdrv {
+    ByteBuffer *b;
+    long calls, refused;
+};
+
+static ssize_t
+bd_put_chunk(void *drv, const void *data, size_t n)
+{
+    struct bufdrv *d = drv;
+    ByteBuffer *b = d->b;
+    d->calls++;
+    if (b->used > b->size || n > b->size - b->used) {
+        d->refused++;
+        return -ENOMEM;
+    }
+    memmove(b->data + b->used, data, n);
+    b->used += n;
+    return (ssize_t)n;
+}
+
+static int
+bd_put_octet(void *drv, unsigned char c)
+{
+    return (int)bd_put_chunk(drv, &c, 1);
+}
+
+static ssize_t
+bd_get_chunk(void *drv, void *data, size_t n)
+{
+    struct bufdrv *d = drv;
+    ByteBuffer *b = d->b;
+    if (++d->calls > 4096) {
+        d->refused++;
+        return -EIO;
+    }
+    if (b->offset >= b->used)
+        return -ENODATA;
+    size_t m = b->used - b->offset;
+    if (m > n)
+        m = n;
+    memmove(data, b->data + b->offset, m);
+    b->offset += m;
+    return (ssize_t)m;
+}
+
+static int
+bd_get_octet(void *drv, void *data)
+{
+    return (int)bd_get_chunk(drv, data, 1);
+}
+
+/* One or more encoder calls whose sink appends to the buffer the payload is
+ * taken from.  slices[0..ns): n of each call (buffer_to_sink: one call, the
+ * whole unread content). */
+static void
+run_alias_enc(int k, enum ep ep, int sk, size_t lead, size_t msg, const size_t *slices, size_t ns, size_t slack)
+{
+    unsigned char pfx[10];
+    size_t room = 0;
+    for (size_t i = 0; i < ns; ++i)
+        room += ref_prefix(k, slices[i], pfx) + slices[i];
+    const size_t used0 = lead + msg, size = used0 + room + slack;
+    unsigned char *mem = mc_exact(size);
+    for (size_t i = 0; i < size; ++i)
+        mem[i] = i < used0 ? pat(i) : old(i);
+    ByteBuffer *b = mc_exact(sizeof *b);
+    *b = (ByteBuffer){ mem, size, used0, lead };
+    struct bufdrv d = { b, 0, 0 };
+    Sink s;
+    if (sk)
+        octet_sink_init(&s, bd_put_octet, &d);
+    else
+        chunk_sink_init(&s, bd_put_chunk, &d);
+    const char *name = epname[ep];
+    size_t consumed = 0;
+    for (size_t i = 0; i < ns && !mc.cur_failed; ++i) {
+        const size_t n = slices[i];
+        const size_t off = lead + consumed, before = b->used;
+        unsigned char *want = mc_exact_copy(mem + off, n);
+        ssize_t rc;
+        mc_trans(1);
+        if (ep == EP_MEM_SINK)
+            rc = X_memory_to_sink(k, &s, mem + off, n);
+        else if (ep == EP_BUF_SINK)
+            rc = X_buffer_to_sink(k, &s, b);
+        else
+            rc = X_buffer_to_sink_n(k, &s, b, n);
+        mc_log("%s call %zu (n=%zu): rc=%zd buffer after: used=%zu offset=%zu, %ld sink calls, %ld refused for lack of room", name, i, n,
+               rc, b->used, b->offset, d.calls, d.refused);
+        if (b->data != mem || b->size != size || b->used < before || b->used > size) {
+            /* what the sink appended is the buffer's content behind the old fill mark: a fill mark that
+             * went backwards (or a descriptor that was re-pointed) loses octets the sink was given */
+            mc_fail(clause(name, "payload"), "sink appends to the source buffer: after call %zu the buffer has used=%zu (before the call: %zu, size %zu): what the sink stored is not in the buffer's content any more",
+                    i, b->used, before, size);
+        } else {
+            struct rec r;
+            memset(&r, 0, sizeof r);
+            r.buf = mem + before;
+            r.n = b->used - before;
+            r.cap = size - before;
+            r.overflow = (size_t)d.refused; /* never with a conforming encoder: room was made for every frame */
+            if (judge_sink(name, k, n, want, &r, rc) && ep == EP_BUF_SINK_N) {
+                /* advanced by n; the fill mark is the sink's */
+                if (b->offset != off + n)
+                    mc_fail(clause(name, "advances"), "buffer after the call: offset=%zu, expected %zu (advanced by n=%zu)", b->offset,
+                            off + n, n);
+            }
+        }
+        free(want);
+        if (ep == EP_BUF_SINK_N)
+            consumed += n;
+    }
+    mc_log_hex("buffer", mem, size < 48 ? size : 48);
+    free(b);
+    free(mem);
+}
+
+static void
+enc_alias(size_t M)
+{
+    static const enum ep eps[3] = { EP_MEM_SINK, EP_BUF_SINK, EP_BUF_SINK_N };
+    for (int k = 0; k < NKINDS; ++k)
+        for (int sk = 0; sk < 2; ++sk)
+            for (size_t lead = 0; lead < 2; ++lead)
+                for (size_t slack = 0; slack < 2; ++slack) {
+                    /* one call: every n <= msg <= M, and two longer payloads (prefixes of several octets) */
+                    for (int e = 0; e < 3; ++e)
+                        for (size_t msg = 1; msg <= M + 2; ++msg) {
+                            const size_t m = msg == M + 1 ? 130 : msg == M + 2 ? 300 : msg;
+                            for (size_t n = 1; n <= m; ++n) {
+                                if (eps[e] == EP_BUF_SINK && n != m)
+                                    continue;
+                                if (m > M && n != m && n != m - 1)
+                                    continue;
+                                if (!mc_case("enc-alias k=%s ep=%s sink=%s-appending-to-the-source-buffer lead=%zu unread=%zu n=%zu slack=%zu",
+                                             kname[k], epname[eps[e]], skname[sk], lead, m, n, slack))
+                                    continue;
+                                run_alias_enc(k, eps[e], sk, lead, m, &n, 1, slack);
+                                mc_end(true, ref_verdict(k, n, true) == V_ACCEPT ? "alias-enc" : "alias-enc-refuse");
+                            }
+                        }
+                    /* histories of slices: every composition of the message */
+                    for (size_t msg = 2; msg <= M; ++msg)
+                        for (uint32_t mask = 1; mask < (1u << (msg - 1)); ++mask) {
+                            size_t sl[16], ns = 0, run = 0;
+                            char txt[64];
+                            size_t l = 0;
+                            for (size_t i = 0; i < msg; ++i) {
+                                run++;
+                                if (i + 1 == msg || ((mask >> i) & 1u)) {
+                                    l += (size_t)snprintf(txt + l, sizeof txt - l, "%s%zu", ns ? "+" : "", run);
+                                    sl[ns++] = run;
+                                    run = 0;
+                                }
+                            }
+                            if (!mc_case("enc-alias k=%s ep=%s sink=%s-appending-to-the-source-buffer lead=%zu unread=%zu slices=%s slack=%zu",
+                                         kname[k], epname[EP_BUF_SINK_N], skname[sk], lead, msg, txt, slack))
+                                continue;
+                            run_alias_enc(k, EP_BUF_SINK_N, sk, lead, msg, sl, ns, slack);
+                            mc_end(true, "alias-enc-slices");
+                        }
+                }
+}
+
+/* Decoders whose source reads the unread content of the buffer the payload is
+ * appended to.  The buffer holds `lead` consumed octets and a stream of
+ * frames; room behind the fill mark: the payloads + slack, or one octet less
+ * than the (single) frame needs. */
+static void
+run_alias_dec(int k, enum dec d, enum srckind sk, size_t lead, const size_t *lens, size_t nf, size_t slack, bool tight)
+{
+    unsigned char tmp[10];
+    size_t sl = 0, sum = 0;
+    for (size_t f = 0; f < nf; ++f) {
+        sl += ref_prefix(k, lens[f], tmp) + lens[f];
+        sum += lens[f];
+    }
+    const size_t used0 = lead + sl, size = tight ? used0 + sum - 1 : used0 + sum + slack;
+    unsigned char *mem = mc_exact(size);
+    for (size_t i = 0; i < size; ++i)
+        mem[i] = old(i);
+    size_t w = lead;
+    for (size_t f = 0; f < nf; ++f)
+        w += put_frame(mem + w, k, lens[f], f);
+    unsigned char *orig = mc_exact_copy(mem, used0);
+    ByteBuffer *b = mc_exact(sizeof *b);
+    *b = (ByteBuffer){ mem, size, used0, lead };
+    struct bufdrv rd = { b, 0, 0 }, wr = { b, 0, 0 };
+    Source src;
+    if (sk == SRC_OCTET)
+        octet_source_init(&src, bd_get_octet, &rd);
+    else
+        chunk_source_init(&src, bd_get_chunk, &rd);
+    Sink snk;
+    chunk_sink_init(&snk, bd_put_chunk, &wr);
+    const char *name = decname[d];
+    for (size_t f = 0; f < nf; ++f) {
+        const size_t len = lens[f], before = b->used;
+        ssize_t rc;
+        mc_trans(1);
+        if (d == D_MEM) {
+            /* destination = the free space of that buffer; the caller does the bookkeeping */
+            rc = X_memory_from_source(k, &src, mem + before, size - before);
+            if (rc > 0 && (size_t)rc <= size - before && b->used == before)
+                b->used += (size_t)rc;
+        } else if (d == D_BUF) {
+            rc = X_buffer_from_source(k, &src, b);
+        } else {
+            rc = X_decode_source_to_sink(k, &src, &snk);
+        }
+        mc_log("%s frame %zu (%zu octets): rc=%zd buffer after: used=%zu offset=%zu", name, f, len, rc, b->used, b->offset);
+        if (rd.refused) {
+            mc_fail("C13/hang", "%s: source call budget exceeded", name);
+            break;
+        }
+        if (tight) {
+            if (rc != -ENOMEM)
+                mc_fail(clause(name, "enomem"), "source reads the destination buffer's unread content; room for %zu, frame of %zu: rc=%zd, expected out-of-memory (%d)",
+                        size - before, len, rc, -ENOMEM);
+            break;
+        }
+        const bool kept = b->data == mem && b->size == size && memcmp(mem, orig, used0) == 0;
+        if (rc < 0 || (d != D_SINK && (size_t)rc != len) || !kept || b->used != before + len
+            || !payload_is(mem + before, len, f)) {
+            mc_fail(clause(name, d == D_BUF ? "appends" : "returns-payload"),
+                    "source reads the destination buffer's unread content: frame %zu of %zu (payload %zu octets) rc=%zd, fill mark %zu -> %zu, content before the old fill mark %s, payload %s behind it",
+                    f, nf, len, rc, before, b->used, kept ? "kept" : "changed",
+                    (b->used >= before + len && b->used <= size && payload_is(mem + before, len, f)) ? "is" : "is not");
+            break;
+        }
+    }
+    mc_log_hex("buffer", mem, size < 48 ? size : 48);
+    free(b);
+    free(orig);
+    free(mem);
+}
+
+static void
+dec_alias(size_t L)
+{
+    for (int k = 0; k < NKINDS; ++k)
+        for (int d = 0; d < 3; ++d)
+            for (int sk = 0; sk < 2; ++sk)
+                for (size_t lead = 0; lead <= 2; lead += 2) {
+                    for (size_t nf = 1; nf <= 2; ++nf)
+                        for (size_t l0 = 1; l0 <= L + 1; ++l0)
+                            for (size_t l1 = 1; l1 <= (nf > 1 ? L : 1); ++l1)
+                                for (size_t slack = 0; slack < 2; ++slack) {
+                                    const size_t lens[2] = { l0 > L ? 130 : l0, l1 };
+                                    if (!mc_case("dec-alias k=%s dec=%s source=%s-reading-the-destination-buffer lead=%zu frames=[%zu%s%.0zu] slack=%zu",
+                                                 kname[k], decname[d], sk ? "octet" : "chunk", lead, lens[0], nf > 1 ? "," : "",
+                                                 nf > 1 ? lens[1] : (size_t)0, slack))
+                                        continue;
+                                    run_alias_dec(k, (enum dec)d, (enum srckind)sk, lead, lens, nf, slack, false);
+                                    mc_end(true, "alias-dec");
+                                }
+                    for (size_t l0 = 1; l0 <= L; ++l0) {
+                        if (!mc_case("dec-alias k=%s dec=%s source=%s-reading-the-destination-buffer lead=%zu frames=[%zu] room=%zu",
+                                     kname[k], decname[d], sk ? "octet" : "chunk", lead, l0, l0 - 1))
+                            continue;
+                        run_alias_dec(k, (enum dec)d, (enum srckind)sk, lead, &l0, 1, 0, true);
+                        mc_end(true, "alias-dec-enomem");
+                    }
+                }
+}
+
+/* ------------------------------------------------------------------------ */
+/* Stacked endpoints: the driver of the endpoint uses the library itself     */
+/* ------------------------------------------------------------------------ */
+
+/* A sink or source is whatever its driver makes it, and a driver may sit on
+ * top of another endpoint that it reaches through this very library
+ * (tunnelling a framed stream through a framed stream, a sink that reports
+ * progress as framed records, a source that polls a framed side channel).
+ * The statement quantifies over every such sink and source: each call is owed
+ * its frame / its payload, the outer one as well as the one made from inside
+ * the driver while the outer one is in progress.  So every entry point that
+ * takes an endpoint is run with a driver that calls an entry point of the
+ * library on *lower* endpoints (objects of its own) before or after doing its
+ * job, at its first, its second, or at each of its first eight calls:
+ *   own      the lower call has a payload / stream of its own (2 or 200 octets)
+ *   tunnel   sink driver: the lower call frames exactly what the driver was
+ *            handed (pointer and count, as handed); source driver: what it
+ *            hands out it first decodes from a lower stream that carries the
+ *            outer stream in pieces, one frame per piece.
+ * Both calls are judged by the oracle of their entry point. */
+enum iop { I_MEM_SINK, I_BUF_SINK, I_BUF_SINK_N, I_CHUNKS_SINK, I_MEM_ENC, I_BUF_ENC, I_BUF_ENC_N, I_CHUNKS_USE,
+           I_MEM_DEC, I_BUF_DEC, I_SINK_DEC, I_NOPS };
+static const char *const iopname[I_NOPS] = { "memory_to_sink", "buffer_to_sink", "buffer_to_sink_n", "chunks_to_sink",
+                                             "memory_encode", "buffer_encode", "buffer_encode_n", "chunks_use",
+                                             "memory_from_source", "buffer_from_source", "decode_source_to_sink" };
+#define INNER_EVERY 8
+
+struct inner {
+    int op, k;
+    size_t own;     /* > 0: length of the lower layer's own payload; 0: tunnel */
+    int order;      /* 0: lower call first, then the driver's own job; 1: the other way round */
+    int trigger;    /* index of the driver call that makes the lower call; < 0: each of the first INNER_EVERY */
+    int low_octet;  /* lower endpoint is octet style */
+    long calls, done;
+    unsigned char *blk;    /* own payload: 1 octet in front, `own` octets, 1 behind */
+    unsigned char *stream; /* own frame for the lower decoders */
+    size_t slen;
+};
+
+static void
+inner_setup(struct inner *in)
+{
+    in->calls = in->done = 0;
+    in->blk = NULL;
+    in->stream = NULL;
+    in->slen = 0;
+    in->low_octet = (in->op + in->k + (int)(in->own & 1u)) & 1;
+    if (in->own) {
+        in->blk = mc_exact(in->own + 2u);
+        in->blk[0] = 0xca;
+        for (size_t i = 0; i < in->own; ++i)
+            in->blk[1 + i] = pat(91u + i);
+        in->blk[1 + in->own] = 0xcb;
+        if (in->op >= I_MEM_DEC && in->own <= ref_max(in->k)) {
+            in->stream = mc_exact(in->own + 10u);
+            in->slen = ref_prefix(in->k, in->own, in->stream);
+            memcpy(in->stream + in->slen, in->blk + 1, in->own);
+            in->slen += in->own;
+        }
+    }
+}
+
+static void
+inner_free(struct inner *in)
+{
+    free(in->blk);
+    free(in->stream);
+}
+
+static bool
+inner_fires(const struct inner *in, long idx)
+{
+    return in->trigger < 0 ? idx < INNER_EVERY : idx == in->trigger;
+}
+
+/* one lower decode of a frame that carries `expect[0..n)`; the payload is left in out[0..n) */
+static void
+inner_decode(int op, int k, Source *src, const unsigned char *expect, size_t n, unsigned char *out, size_t outcap)
+{
+    const char *name = iopname[op];
+    ssize_t rc;
+    bool good;
+    mc_trans(1);
+    if (op == I_MEM_DEC) {
+        unsigned char *dst = mc_exact(n);
+        rc = X_memory_from_source(k, src, dst, n);
+        good = rc >= 0 && (size_t)rc == n && memcmp(dst, expect, n) == 0;
+        if (n <= outcap)
+            memcpy(out, dst, n);
+        free(dst);
+    } else if (op == I_BUF_DEC) {
+        unsigned char *mem = mc_exact(2u + n);
+        mem[0] = old(0);
+        mem[1] = old(1);
+        ByteBuffer b = { mem, 2u + n, 2, 1 };
+        rc = X_buffer_from_source(k, src, &b);
+        good = rc >= 0 && (size_t)rc == n && b.used == 2u + n && b.offset == 1 && b.data == mem && mem[0] == old(0)
+            && mem[1] == old(1) && memcmp(mem + 2, expect, n) == 0;
+        if (n <= outcap)
+            memcpy(out, mem + 2, n);
+        free(mem);
+    } else {
+        struct rec r;
+        cap_init(&r, n);
+        Sink s;
+        chunk_sink_init(&s, cap_chunk, &r);
+        rc = X_decode_source_to_sink(k, src, &s);
+        good = rc >= 0 && r.n == n && memcmp(r.buf, expect, n) == 0;
+        if (n <= outcap)
+            memcpy(out, r.buf, r.n < n ? r.n : n);
+        free(r.buf);
+    }
+    mc_log("  lower call %s(%s) of a frame of %zu octets: rc=%zd", name, kname[k], n, rc);
+    if (!good)
+        mc_fail(clause(name, "returns-payload"), "call made from inside a driver of the outer call: frame of %zu octets (%s), room for %zu: rc=%zd, payload %s",
+                n, kname[k], n, rc, rc >= 0 ? "not returned intact" : "not returned");
+}
+
+/* the lower call; handed/hn: what the driver was handed (tunnel) */
+static void
+inner_run(struct inner *in, const unsigned char *handed, size_t hn)
+{
+    if (in->op >= I_MEM_DEC && in->own > ref_max(in->k))
+        return; /* no frame of this kind is that long: nothing to decode */
+    in->done++;
+    const int k = in->k;
+    const char *name = iopname[in->op];
+    unsigned char *base = in->own ? in->blk : (unsigned char *)(uintptr_t)handed;
+    const size_t lead = in->own ? 1 : 0, tail = in->own ? 1 : 0;
+    const size_t n = in->own ? in->own : hn;
+    unsigned char *want = mc_exact_copy(base + lead, n); /* the designated octets, as they are when the call is made */
+    mc_log("  lower call %s(%s) from inside driver call %ld, payload %s, %zu octets", name, kname[k], in->calls - 1,
+           in->own ? "of its own" : "= what the driver was handed", n);
+    if (in->op >= I_MEM_DEC) {
+        struct src drv;
+        src_init(&drv, in->stream, in->slen, NULL);
+        Source src;
+        make_source(&src, &drv, in->low_octet ? SRC_OCTET : SRC_CHUNK);
+        unsigned char dummy[1];
+        inner_decode(in->op, k, &src, in->blk + 1, n, dummy, 0);
+        free(want);
+        return;
+    }
+    mc_trans(1);
+    const size_t h2 = n / 2, h1 = n - h2;
+    ByteBuffer arr[2] = { { base, lead + h1, lead + h1, lead }, { base + lead + h1, h2 + tail, h2, 0 } };
+    if (in->op <= I_CHUNKS_SINK) {
+        struct rec r;
+        rec_init(&r, n + 10u);
+        Sink s;
+        rec_sink(&s, &r, in->low_octet);
+        ssize_t rc;
+        ByteBuffer b = { base, lead + n + tail, lead + n, lead };
+        if (in->op == I_MEM_SINK) {
+            rc = X_memory_to_sink(k, &s, base + lead, n);
+        } else if (in->op == I_BUF_SINK) {
+            rc = X_buffer_to_sink(k, &s, &b);
+        } else if (in->op == I_BUF_SINK_N) {
+            b.used = lead + n + tail;
+            rc = X_buffer_to_sink_n(k, &s, &b, n);
+            if (rc >= 0 && ref_verdict(k, n, true) == V_ACCEPT)
+                check_advance(name, &b, base, lead + n + tail, lead + n + tail, lead, n);
+        } else {
+            ByteChunks bc = { h2 ? 2u : 1u, 0, arr };
+            rc = X_chunks_to_sink(k, &s, &bc);
+        }
+        judge_sink(name, k, n, want, &r, rc);
+        free(r.buf);
+    } else if (in->op == I_CHUNKS_USE) {
+        LengthPrefixChunks *lpc = mc_exact(sizeof *lpc);
+        memset(lpc, 0, sizeof *lpc);
+        lpc->payload = (ByteChunks){ h2 ? 2u : 1u, 0, arr };
+        const int rc = X_chunks_use(k, lpc);
+        judge_obj(name, k, n, NULL, lpc->prefix_, &lpc->prefix, NULL, rc);
+        free(lpc);
+    } else {
+        LengthPrefixBuffer *lpb = mc_exact(sizeof *lpb);
+        memset(lpb, 0, sizeof *lpb);
+        ByteBuffer b = { base, lead + n + tail, lead + n, lead };
+        int rc;
+        if (in->op == I_MEM_ENC) {
+            rc = X_memory_encode(k, lpb, base + lead, n);
+        } else if (in->op == I_BUF_ENC) {
+            rc = X_buffer_encode(k, lpb, &b);
+        } else {
+            b.used = lead + n + tail;
+            rc = X_buffer_encode_n(k, lpb, &b, n);
+        }
+        if (judge_obj(name, k, n, base + lead, lpb->prefix_, &lpb->prefix, &lpb->payload, rc) && in->op == I_BUF_ENC_N)
+            check_advance(name, &b, base, lead + n + tail, lead + n + tail, lead, n);
+        free(lpb);
+    }
+    free(want);
+}
+
+static void
+inner_desc(const struct inner *in, char *buf, size_t n)
+{
+    char trig[24];
+    if (in->trigger < 0)
+        snprintf(trig, sizeof trig, "each-of-the-first-%d", INNER_EVERY);
+    else
+        snprintf(trig, sizeof trig, "%d", in->trigger);
+    if (in->own)
+        snprintf(buf, n, "%s(%s, own payload of %zu octets, %s lower endpoint) %s its own job, in driver call %s", iopname[in->op],
+                 kname[in->k], in->own, in->low_octet ? "octet" : "chunk", in->order ? "after" : "before", trig);
+    else
+        snprintf(buf, n, "%s(%s, what it was handed, %s lower endpoint) %s its own job, in driver call %s", iopname[in->op],
+                 kname[in->k], in->low_octet ? "octet" : "chunk", in->order ? "after" : "before", trig);
+}
+
+/* ---- a sink whose driver uses the library -------------------------------- */
+struct stack_sink {
+    struct inner in;
+    struct rec store; /* the driver's own job: keep what it is handed */
+    int take_one;     /* chunk style: takes one octet of a longer request */
+    long budget;
+    bool over;
+};
+
+static ssize_t
+ssk_chunk(void *drv, const void *data, size_t n)
+{
+    struct stack_sink *s = drv;
+    const long idx = s->in.calls++;
+    if (idx >= s->budget) {
+        s->over = true;
+        return -EIO;
+    }
+    const size_t m = (s->take_one && n > 1) ? 1u : n;
+    const bool fire = inner_fires(&s->in, idx);
+    if (fire && s->in.order == 0)
+        inner_run(&s->in, data, m);
+    struct rec *r = &s->store;
+    const size_t room = r->cap - r->n;
+    const size_t st = m < room ? m : room;
+    memcpy(r->buf + r->n, data, st);
+    r->n += st;
+    r->overflow += m - st;
+    if (fire && s->in.order == 1)
+        inner_run(&s->in, data, m);
+    return (ssize_t)m;
+}
+
+static int
+ssk_octet(void *drv, unsigned char c)
+{
+    return (int)ssk_chunk(drv, &c, 1);
+}
+
+static const char *const stylename[3] = { "chunk", "chunk-taking-one-octet-per-call", "octet" };
+
+static void
+stack_sink_init(struct stack_sink *ss, Sink *s, int style, const struct inner *in, size_t expect)
+{
+    memset(ss, 0, sizeof *ss);
+    ss->in = *in;
+    inner_setup(&ss->in);
+    rec_init(&ss->store, expect + 10u);
+    ss->take_one = style == 1;
+    ss->budget = 4 * (long)(expect + 10u) + 16;
+    if (style == 2)
+        octet_sink_init(s, ssk_octet, ss);
+    else
+        chunk_sink_init(s, ssk_chunk, ss);
+}
+
+/* outer call: one of the four sink encoders, layouts as in run_sinkbeh */
+static bool
+run_reent_enc(int k, enum ep ep, int style, size_t len, const struct inner *in)
+{
+    const size_t h2 = len / 2, h1 = len - h2;
+    unsigned char *mem = mc_exact(len + 4u);
+    for (size_t i = 0; i < len + 4u; ++i)
+        mem[i] = pat(i);
+    unsigned char *c0 = mc_exact(2), *c2 = mc_exact(2), *c3 = mc_exact(h2 ? h2 : 1);
+    c0[0] = c0[1] = 0xcf;
+    c2[0] = c2[1] = 0xce;
+    for (size_t i = 0; i < h2; ++i)
+        c3[i] = pat(1u + h1 + i);
+    struct stack_sink ss;
+    Sink s;
+    stack_sink_init(&ss, &s, style, in, len);
+    const char *name = epname[ep];
+    const unsigned char *pay = mem + 1;
+    unsigned char *joined = NULL;
+    ssize_t rc;
+    ByteBuffer b = { mem, len + 4u, len + 3u, 1 };
+    mc_trans(1);
+    if (ep == EP_MEM_SINK) {
+        rc = X_memory_to_sink(k, &s, mem + 1, len);
+    } else if (ep == EP_BUF_SINK) {
+        b = (ByteBuffer){ mem, len + 2u, len + 1u, 1 };
+        rc = X_buffer_to_sink(k, &s, &b);
+    } else if (ep == EP_BUF_SINK_N) {
+        rc = X_buffer_to_sink_n(k, &s, &b, len);
+    } else {
+        ByteBuffer arr[4] = { { c0, 2, 2, 1 }, { mem, 1u + h1, 1u + h1, 1 }, { c2, 2, 1, 1 }, { c3, h2 ? h2 : 1, h2, 0 } };
+        ByteChunks bc = { h2 ? 4u : 3u, 1, arr };
+        joined = mc_exact(len);
+        memcpy(joined, mem + 1, h1);
+        memcpy(joined + h1, c3, h2);
+        pay = joined;
+        rc = X_chunks_to_sink(k, &s, &bc);
+    }
+    mc_log("outer call %s(%s): %ld driver calls, %ld lower calls made from inside them", name, kname[k], ss.in.calls, ss.in.done);
+    const bool nested = ss.in.done > 0;
+    if (ss.over)
+        mc_fail("C13/hang", "%s: sink call budget of %ld exceeded", name, ss.budget);
+    else if (!mc.cur_failed) {
+        if (judge_sink(name, k, len, pay, &ss.store, rc) && ep == EP_BUF_SINK_N)
+            check_advance(name, &b, mem, len + 4u, len + 3u, 1, len);
+    }
+    inner_free(&ss.in);
+    free(ss.store.buf);
+    free(joined);
+    free(mem);
+    free(c0);
+    free(c2);
+    free(c3);
+    return nested;
+}
+
+/* ---- a source whose driver uses the library ------------------------------ */
+#define STAGE 8
+struct stack_src {
+    struct inner in;
+    const unsigned char *stream; /* what the outer call is to read */
+    size_t len, pos;
+    int take_one;
+    long budget;
+    bool over;
+    /* tunnel: the outer stream arrives in frames of `piece` octets on a lower source */
+    size_t piece;
+    unsigned char *lowstream;
+    struct src low;
+    Source lowsrc;
+    unsigned char stage[STAGE];
+    size_t st_n, st_pos;
+};
+
+static ssize_t
+ssr_chunk(void *drv, void *data, size_t n)
+{
+    struct stack_src *s = drv;
+    const long idx = s->in.calls++;
+    if (idx >= s->budget) {
+        s->over = true;
+        return -EIO;
+    }
+    if (s->pos >= s->len)
+        return -ENODATA;
+    size_t m = s->len - s->pos;
+    if (m > n)
+        m = n;
+    if (s->take_one)
+        m = 1;
+    if (s->piece) {
+        if (s->st_pos == s->st_n) {
+            size_t pn = s->len - s->pos;
+            if (pn > s->piece)
+                pn = s->piece;
+            s->in.done++;
+            mc_log("  driver call %ld fetches the next %zu octets from the lower stream", idx, pn);
+            memset(s->stage, 0xee, sizeof s->stage);
+            inner_decode(s->in.op, s->in.k, &s->lowsrc, s->stream + s->pos, pn, s->stage, sizeof s->stage);
+            s->st_n = pn;
+            s->st_pos = 0;
+        }
+        if (m > s->st_n - s->st_pos)
+            m = s->st_n - s->st_pos;
+        memcpy(data, s->stage + s->st_pos, m);
+        s->st_pos += m;
+        s->pos += m;
+        return (ssize_t)m;
+    }
+    const bool fire = inner_fires(&s->in, idx);
+    if (fire && s->in.order == 0)
+        inner_run(&s->in, NULL, 0);
+    memcpy(data, s->stream + s->pos, m);
+    s->pos += m;
+    if (fire && s->in.order == 1)
+        inner_run(&s->in, NULL, 0);
+    return (ssize_t)m;
+}
+
+static int
+ssr_octet(void *drv, void *data)
+{
+    return (int)ssr_chunk(drv, data, 1);
+}
+
+static void
+stack_src_init(struct stack_src *ss, Source *src, int style, const struct inner *in, size_t piece,
+               const unsigned char *stream, size_t len)
+{
+    memset(ss, 0, sizeof *ss);
+    ss->in = *in;
+    ss->stream = stream;
+    ss->len = len;
+    ss->take_one = style == 1;
+    ss->budget = 4 * (long)len + 64;
+    ss->piece = piece;
+    if (piece) {
+        /* the lower stream: the outer one in frames of `piece` octets */
+        const size_t np = (len + piece - 1) / piece;
+        ss->lowstream = mc_exact(len + 10u * np);
+        size_t w = 0;
+        for (size_t o = 0; o < len; o += piece) {
+            const size_t pn = len - o < piece ? len - o : piece;
+            w += ref_prefix(in->k, pn, ss->lowstream + w);
+            memcpy(ss->lowstream + w, stream + o, pn);
+            w += pn;
+        }
+        src_init(&ss->low, ss->lowstream, w, NULL);
+        ss->in.low_octet = (in->op + in->k) & 1;
+        make_source(&ss->lowsrc, &ss->low, ss->in.low_octet ? SRC_OCTET : SRC_CHUNK);
+    } else {
+        inner_setup(&ss->in);
+    }
+    if (style == 2)
+        octet_source_init(src, ssr_octet, ss);
+    else
+        chunk_source_init(src, ssr_chunk, ss);
+}
+
+/* outer call: one decoder on one frame; side 0: its source is stacked, side 1
+ * (decode_source_to_sink only): its sink is */
+static bool
+run_reent_dec(int k, enum dec d, int style, size_t len, const struct inner *in, size_t piece, int side)
+{
+    unsigned char *stream = mc_exact(len + 10u);
+    const size_t sl = put_frame(stream, k, len, 0);
+    struct stack_src ssr;
+    struct stack_sink ssk;
+    struct src plain;
+    Source src;
+    Sink snk;
+    struct rec r;
+    memset(&r, 0, sizeof r);
+    if (side == 0) {
+        stack_src_init(&ssr, &src, style, in, piece, stream, sl);
+        if (d == D_SINK) {
+            cap_init(&r, len);
+            chunk_sink_init(&snk, cap_chunk, &r);
+        }
+    } else {
+        src_init(&plain, stream, sl, NULL);
+        make_source(&src, &plain, style == 2 ? SRC_OCTET : SRC_CHUNK);
+        stack_sink_init(&ssk, &snk, style, in, len);
+    }
+    const char *name = decname[d];
+    const size_t bused = 2, boff = 1;
+    bool good;
+    ssize_t rc;
+    mc_trans(1);
+    if (d == D_MEM) {
+        unsigned char *dst = mc_exact(len);
+        memset(dst, 0xee, len);
+        rc = X_memory_from_source(k, &src, dst, len);
+        mc_log_hex("destination-head", dst, len < 24 ? len : 24);
+        good = rc >= 0 && (size_t)rc == len && payload_is(dst, len, 0);
+        free(dst);
+    } else if (d == D_BUF) {
+        unsigned char *mem = mc_exact(bused + len);
+        for (size_t i = 0; i < bused + len; ++i)
+            mem[i] = old(i);
+        ByteBuffer b = { mem, bused + len, bused, boff };
+        rc = X_buffer_from_source(k, &src, &b);
+        mc_log("buffer after: used=%zu offset=%zu", b.used, b.offset);
+        good = rc >= 0 && (size_t)rc == len && b.used == bused + len && b.offset == boff && b.data == mem
+            && mem[0] == old(0) && mem[1] == old(1) && payload_is(mem + bused, len, 0);
+        free(mem);
+    } else {
+        rc = X_decode_source_to_sink(k, &src, &snk);
+        const struct rec *got = side ? &ssk.store : &r;
+        good = rc >= 0 && got->n == len && !got->overflow && payload_is(got->buf, len, 0);
+    }
+    const struct inner *fin = side ? &ssk.in : &ssr.in;
+    mc_log("outer call %s(%s): rc=%zd, %ld driver calls of the stacked %s, %ld lower calls made from inside them", name, kname[k], rc,
+           fin->calls, side ? "sink" : "source", fin->done);
+    const bool nested = fin->done > 0;
+    if (side ? ssk.over : ssr.over)
+        mc_fail("C13/hang", "%s: driver call budget exceeded", name);
+    else if (!good)
+        mc_fail(clause(name, d == D_BUF ? "appends" : "returns-payload"),
+                "frame of %zu octets through a %s whose driver uses the library itself: rc=%zd, payload not returned intact", len,
+                side ? "sink" : "source", rc);
+    if (side == 0) {
+        if (!piece)
+            inner_free(&ssr.in);
+        free(ssr.lowstream);
+        free(r.buf);
+    } else {
+        inner_free(&ssk.in);
+        free(ssk.store.buf);
+    }
+    free(stream);
+    return nested;
+}
+
+/* every lower call x where/when it is made */
+typedef void (*inner_fn)(const struct inner *, void *);
+
+static void
+for_inner(bool sink_side, int ntrig, const size_t *owns, int nown, inner_fn fn, void *arg)
+{
+    struct inner in;
+    memset(&in, 0, sizeof in);
+    for (int io = 0; io < nown; ++io)
+        for (int op = 0; op < I_NOPS; ++op)
+            for (int ik = 0; ik < NFLENP; ++ik)
+                for (int order = 0; order < 2; ++order)
+                    for (int trig = -1; trig < ntrig; ++trig) {
+                        in.op = op;
+                        in.k = ik;
+                        in.own = owns[io];
+                        in.order = order;
+                        in.trigger = trig;
+                        fn(&in, arg);
+                    }
+    if (!sink_side)
+        return;
+    /* tunnel: frame what the driver was handed */
+    for (int op = I_MEM_SINK; op <= I_CHUNKS_SINK; ++op)
+        for (int ik = 0; ik < NFLENP; ++ik)
+            for (int order = 0; order < 2; ++order)
+                for (int trig = -1; trig < ntrig; ++trig) {
+                    in.op = op;
+                    in.k = ik;
+                    in.own = 0;
+                    in.order = order;
+                    in.trigger = trig;
+                    fn(&in, arg);
+                }
+}
+
+struct reent_outer {
+    int k, style, side;
+    enum ep ep;
+    enum dec d;
+    size_t len;
+};
+
+static void
+reent_enc_case(const struct inner *in, void *arg)
+{
+    const struct reent_outer *o = arg;
+    if (!mc_would_run()) {
+        mc_skip_case();
+        return;
+    }
+    struct inner probe = *in;
+    probe.low_octet = (in->op + in->k + (int)(in->own & 1u)) & 1;
+    char d[200];
+    inner_desc(&probe, d, sizeof d);
+    if (!mc_case("reent-enc k=%s ep=%s sink=%s len=%zu; its driver calls %s", kname[o->k], epname[o->ep], stylename[o->style], o->len, d))
+        return;
+    const bool nested = run_reent_enc(o->k, o->ep, o->style, o->len, in);
+    mc_end(nested, !nested ? "reent-not-reached" : in->own ? "reent-enc" : "reent-enc-tunnel");
+}
+
+static void
+reent_dec_case(const struct inner *in, void *arg)
+{
+    const struct reent_outer *o = arg;
+    if (!mc_would_run()) {
+        mc_skip_case();
+        return;
+    }
+    struct inner probe = *in;
+    probe.low_octet = (in->op + in->k + (int)(in->own & 1u)) & 1;
+    char d[200];
+    inner_desc(&probe, d, sizeof d);
+    if (!mc_case("reent-dec k=%s dec=%s %s=%s len=%zu; its driver calls %s", kname[o->k], decname[o->d],
+                 o->side ? "sink" : "source", stylename[o->style], o->len, d))
+        return;
+    const bool nested = run_reent_dec(o->k, o->d, o->style, o->len, in, 0, o->side);
+    mc_end(nested, !nested ? "reent-not-reached" : o->side ? "reent-dec-sink" : "reent-dec");
+}
+
+static void
+reentrancy(bool T)
+{
+    static const size_t LQ[] = { 1, 3, 300 }, LT[] = { 1, 2, 3, 130, 300, 65535 };
+    static const size_t OQ[] = { 2, 200 }, OT[] = { 1, 2, 200, 300 };
+    const size_t *L = T ? LT : LQ, *O = T ? OT : OQ;
+    const int nL = T ? 6 : 3, nO = T ? 4 : 2, ntrig = T ? 4 : 2;
+    static const enum ep eps[4] = { EP_MEM_SINK, EP_BUF_SINK, EP_BUF_SINK_N, EP_CHUNKS_SINK };
+    struct reent_outer o;
+    memset(&o, 0, sizeof o);
+    for (o.k = 0; o.k < NKINDS; ++o.k)
+        for (int e = 0; e < 4; ++e)
+            for (o.style = 0; o.style < 3; ++o.style)
+                for (int li = 0; li < nL; ++li) {
+                    o.ep = eps[e];
+                    o.len = L[li];
+                    for_inner(true, ntrig, O, nO, reent_enc_case, &o);
+                }
+    for (o.k = 0; o.k < NKINDS; ++o.k)
+        for (int d = 0; d < 3; ++d)
+            for (o.style = 0; o.style < 3; ++o.style)
+                for (int li = 0; li < nL; ++li) {
+                    o.d = (enum dec)d;
+                    o.len = L[li];
+                    if (o.len > ref_max(o.k))
+                        continue;
+                    for (o.side = 0; o.side < (d == D_SINK ? 2 : 1); ++o.side) {
+                        if (o.side && o.style == 1)
+                            continue; /* sts_n hands a sink one octet at a time anyway */
+                        for_inner(o.side != 0, ntrig, O, nO, o.side ? reent_dec_case : reent_dec_case, &o);
+                    }
+                    o.side = 0;
+                    /* tunnel: what the source hands out it decodes from a lower stream */
+                    static const size_t PIECE[3] = { 1, 2, 5 };
+                    for (int op = I_MEM_DEC; op <= I_SINK_DEC; ++op)
+                        for (int ik = 0; ik < NFLENP; ++ik)
+                            for (int pi = 0; pi < 3; ++pi) {
+                                if (!mc_case("reent-dec k=%s dec=%s source=%s len=%zu; its driver obtains what it hands out with %s(%s) from a lower %s source carrying the stream in frames of %zu octets",
+                                             kname[o.k], decname[d], stylename[o.style], o.len, iopname[op], kname[ik],
+                                             ((op + ik) & 1) ? "octet" : "chunk", PIECE[pi]))
+                                    continue;
+                                struct inner in;
+                                memset(&in, 0, sizeof in);
+                                in.op = op;
+                                in.k = ik;
+                                const bool nested = run_reent_dec(o.k, (enum dec)d, o.style, o.len, &in, PIECE[pi], 0);
+                                mc_end(nested, nested ? "reent-dec-tunnel" : "reent-not-reached");
+                            }
+                }
+}
+
 int
 main(int argc, char **argv)
 {
@@ -2088,17 +3257,22 @@ main(int argc, char **argv)
     enc_sinkbeh(T ? 5 : 3, T ? 6 : 4, T ? 8 : 6, T ? 3 : 2);
     enc_long();
     enc_max();
+    enc_sum();
+    enc_alias(T ? 6 : 4);
     dec_small(T ? 8 : 6);
     dec_long();
     dec_max();
     dec_huge();
+    dec_huge_sink();
     streams(T ? 16 : 12);
     for_shapes(T ? 13 : 10, shape_getbuffer);
     stream_two_cuts();
     streams_octet(T ? 16 : 12);
-    char bound[1600];
+    dec_alias(T ? 5 : 3);
+    reentrancy(T);
+    char bound[3200];
     snprintf(bound, sizeof bound,
-             "6 kinds; encoders: buffer states size<=%d x n<=rest, chunk lists <=%d chunks (rest 0..3, lead/slack 0..1, active<=%d), "
+             "6 kinds + the varint kind through the lenp_* entry points of the header (all families); encoders: buffer states size<=%d x n<=rest, chunk lists <=%d chunks (rest 0..3, lead/slack 0..1, active<=%d), "
              "lengths 1..1100 + 65534..65536, maxima 2^31,2^32,SSIZE_MAX +-1 via fake buffers (also into a sink whose first call takes "
              "1, 2^31, 2^32-11, 2^32-4, 2^32-5 or 2^32 octets); _n requests beyond every maximum and beyond the content (256 .. SIZE_MAX, "
              "each straddling 2^32, SSIZE_MAX, SIZE_MAX by the buffer size) on every buffer state size<=%d (refused, then a second slice; "
@@ -2108,8 +3282,18 @@ main(int argc, char **argv)
              "lengths 1..1100 x cap len-1..len+1, maxima vs real capacities 1 and 7, accepting decodes of 2^32-3 .. 2^33 octets with a first "
              "read of 1, 2^31, 2^32-11, 2^32-4, 2^32-5, 2^32, 2^33-4 octets (judged where the decoder delivers in place); streams of 1..3 frames with <=%d octets under all 2^(L-1) "
              "fragmentations (streams <=%d octets also from a source offering a scratch block of 1, 3, 8 octets, sink decoder), "
-             "130-octet stream under all <=2-cut fragmentations, octet source",
-             T ? 8 : 6, T ? 4 : 3, T ? 3 : 2, T ? 6 : 4, T ? 5 : 3, T ? 3 : 2, T ? 6 : 4, T ? 8 : 6, T ? 8 : 6, T ? 16 : 12, T ? 13 : 10);
+             "130-octet stream under all <=2-cut fragmentations, octet source; "
+             "chunk lists of 2..4 equal chunks whose unread octets add up to 2^31-1, 2^31, 2^31+5, 0x90000000, 2^32-1, 2^32, 2^32+5, 0x180000000; "
+             "aliasing: the three memory/buffer sink encoders into a sink appending to the source buffer (unread <=%d and 130, 300; every n; every "
+             "composition of the unread octets as a history of _n slices), the three decoders from a source reading the destination buffer's unread "
+             "content (1..2 frames, lengths <=%d and 130; room exact, +1, -1); "
+             "stacked endpoints: the four sink encoders (lengths %s; chunk sink, chunk sink taking one octet per call, octet sink) and the three decoders "
+             "(same lengths; source of the three styles; decode_source_to_sink also with a stacked sink) with a driver that calls one of the 11 entry points "
+             "(6 kinds, own payload of %s octets, or - sink drivers, the four sink encoders - exactly what it was handed) on lower endpoints before or after "
+             "its own job in its driver call 0..%d or in each of the first 8; sources that decode what they hand out from a lower stream carrying the outer "
+             "stream in frames of 1, 2, 5 octets (3 decoders x 6 kinds)",
+             T ? 8 : 6, T ? 4 : 3, T ? 3 : 2, T ? 6 : 4, T ? 5 : 3, T ? 3 : 2, T ? 6 : 4, T ? 8 : 6, T ? 8 : 6, T ? 16 : 12, T ? 13 : 10,
+             T ? 6 : 4, T ? 5 : 3, T ? "1, 2, 3, 130, 300, 65535" : "1, 3, 300", T ? "1, 2, 200, 300" : "2, 200", T ? 3 : 1);
     mc_finish(true, bound);
     return 0;
 }
